@@ -364,12 +364,12 @@ def cmdC01 (st : State) : Except String (List String) := do
   return out ++ ["done"]
 
 /-- C01 (engine level): shape a glyph string with the reference interpreter of the IR's rules. -/
-def cmdShape (st : State) (gs : List String) : List String :=
+def cmdShape (st : State) (fv : List Int) (gs : List String) : List String :=
   match gs.mapM (·.toNat?) with
   | none => ["bad-op"]
   | some gids =>
     let tbl := st.ir.gattrValues
-    let p : Eng.Prog := { ir := st.ir, nuser := st.ir.numUser,
+    let p : Eng.Prog := { ir := st.ir, nuser := st.ir.numUser, feats := fun f => fv.getD f 0,
                           gvals := fun g a => match tbl.find? (·.1 == g) with | some (_, vs) => vs.getD a 0 | none => 0 }
     let (out, stalled) := Eng.shape p gids
     let item (s : Eng.Slot) : String :=
@@ -643,7 +643,7 @@ def alternativeOf (r : RuleIR) (kept : List Nat) : Option RuleIR := do
       match kept.find? (· ≥ c) with
       | some j => (Opt.newIndex kept j).map (· - 1)
       | none => some kept.length
-  return { items := items, caret := caret, opt := [], line := r.line, tree := none }
+  return { items := items, caret := caret, opt := [], line := r.line, tree := none, ifs := r.ifs }
 
 /-- C07: replace every rule that has optional items by its alternatives (spec semantics), after checking that the
     model of the compiler's range algorithm yields the same alternatives in the same order. -/
@@ -866,7 +866,12 @@ def step (st : State) (toks : List String) : IO (State × List String) := do
     return (st', ls)
   | ["linemap", path, token] => return (st, ← cmdLineMap path token)
   | ["c10"] => return (st, cmdC10 st)
-  | "shape" :: gs => return (st, cmdShape st gs)
+  | "shape" :: gs => return (st, cmdShape st [] gs)
+  | "shapef" :: fvs :: gs =>
+    -- shapef v0,v1,... g1 g2 ... : feature values by index in the Feat table
+    match ((fvs.splitOn ",").filter (· ≠ "")).mapM (·.toInt?) with
+    | some fv => return (st, cmdShape st fv gs)
+    | none => return (st, ["bad-op"])
   | ["c01"] =>
     match cmdC01 st with
     | .ok ls => return (st, ls)
